@@ -206,6 +206,12 @@ impl Gen<'_> {
     }
 }
 
+/// the byte at which the first token of the file starts (`None` for a file without code)
+pub fn first_code_independent(ast: &full_moon::ast::Ast) -> Option<usize> {
+    use full_moon::node::Node;
+    ast.nodes().tokens().next().and_then(|t| t.start_position()).map(|p| p.bytes())
+}
+
 pub fn gen_program(r: &mut Rng, stats: &mut Out, filter_rate: usize) -> String {
     let mut g = Gen { r, out: String::new(), names: vec!["a", "b", "c"], filter_rate };
     // global filters before any code
@@ -223,6 +229,22 @@ pub fn gen_program(r: &mut Rng, stats: &mut Out, filter_rate: usize) -> String {
     let top = 1 + g.r.below(5);
     for _ in 0..top {
         g.stmt(0, &mut budget, stats);
+    }
+    // a chunk that ends in a top-level `return` (the block's last statement is no `Stmt`), sometimes with a filter
+    // comment — global ones included, which are late here — right before it
+    if g.r.chance(1, 4) {
+        if g.r.chance(1, 2) {
+            let c = if g.r.chance(1, 2) {
+                format!("--# selene: {}({})", g.r.pick(&["allow", "deny", "warn"]), g.r.pick(LINTS))
+            } else {
+                gen_filter_comment(g.r, stats)
+            };
+            g.out.push_str(&c);
+            g.out.push('\n');
+            stats.bump("comment_before_top_level_return");
+        }
+        g.out.push_str(*g.r.pick(&["return\n", "return 1\n", "return undefined_at_end\n", "return 1 / 0\n"]));
+        stats.bump("top_level_return");
     }
     if g.r.chance(1, 6) {
         let c = gen_filter_comment(g.r, stats);
@@ -452,10 +474,15 @@ pub fn run(args: &Args, out: &mut Out) {
             let filtered = checker.test_on(&ast);
             (unfiltered, filtered)
         }));
-        let first_code = match verif_hooks::first_code(&ast) {
-            Some((s, _)) => num(s),
+        // where the code of the file begins, taken from the token stream itself (the first token that is not trivia) —
+        // not from selene's own `first_code`, so that an error there shows as a misjudged global filter
+        let first_code = match first_code_independent(&ast) {
+            Some(s) => num(s),
             None => atom("none"),
         };
+        if verif_hooks::first_code(&ast).map(|(s, _)| s) != first_code_independent(&ast) {
+            out.bump("selene_first_code_differs_from_first_token");
+        }
         let input_common = |unf: Vec<Sx>| {
             list(vec![nodes_sx(&ast), first_code.clone(), list(unf), cfg_sx.clone(), sev_sx(checker.verif_invalid_lint_filter_severity()), st(&src), all_leading_comments_sx(&ast)])
         };
@@ -507,6 +534,6 @@ pub fn run_c10(args: &Args, out: &mut Out) {
                 list(filtered.iter().filter(|d| d.diagnostic.code != "invalid_lint_filter").map(|d| diag_sx(d)).collect()),
             ]));
         }
-        out.case("C10.same", &list(vec![list(runs), nodes_sx(&ast), match verif_hooks::first_code(&ast) { Some((s, _)) => num(s), None => atom("none") }, st(&src)]), &atom("ok"));
+        out.case("C10.same", &list(vec![list(runs), nodes_sx(&ast), match first_code_independent(&ast) { Some(s) => num(s), None => atom("none") }, st(&src)]), &atom("ok"));
     }
 }
